@@ -47,6 +47,12 @@ class DIB(ABC):
     def to_knx(self) -> bytes:
         """Serialize to KNX/IP raw data."""
 
+    def __eq__(self, other: object) -> bool:
+        """Equal operator."""
+        return self.__class__ == other.__class__ and self.__dict__ == other.__dict__
+
+    __hash__ = None  # type: ignore[assignment]  # mutable value object
+
     @staticmethod
     def determine_dib(raw: bytes) -> DIB:
         """Determine dib type out of dib type code."""
